@@ -4,7 +4,7 @@
    on the mapped inputs.  Hence the optimality / feasibility theorems hold for the values the correspondence computes. *)
 From Coq Require Import List QArith Reals Lra Qreals Bool.
 From Param Require Import Param.
-From TLV Require Import Base.Ops Base.Transfer Model.Prox Proofs.ProxProofs Proofs.ProxProofsHard Proofs.ProxProofsSimplex Proofs.ProxProofsMono Proofs.ProxProofsIso.
+From TLV Require Import Base.Ops Base.Transfer Model.Prox Proofs.ProxProofs Proofs.ProxProofsHard Proofs.ProxProofsSimplex Proofs.ProxProofsMono Proofs.ProxProofsIso Proofs.ProxProofsSmooth.
 Import ListNotations.
 
 Parametricity Recursive non_negative. Check non_negative_R.
@@ -84,6 +84,14 @@ Theorem soft_exec_optimal (t : Q) (v : list Q) (z : list R) : 0 <= Q2R t -> leng
   Q2R t * l1n Rops (map Q2R (soft_thresholding Qops t v)) + dist2 Rops (map Q2R (soft_thresholding Qops t v)) (map Q2R v) / 2
   <= Q2R t * l1n Rops z + dist2 Rops z (map Q2R v) / 2.
 Proof. intros Ht Hl. rewrite soft_transfer. apply soft_optimal; [exact Ht | rewrite map_length; exact Hl]. Qed.
+
+Theorem smooth_exec_optimal (t : Q) (v : list Q) (z : list R) : 0 <= Q2R t -> length z = length v ->
+  sm_apply Rops (Q2R t) 0 (map Q2R (smoothness_solve Qops t v)) = map Q2R v /\
+  smooth_obj (Q2R t) (map Q2R (smoothness_solve Qops t v)) (map Q2R v) <= smooth_obj (Q2R t) z (map Q2R v).
+Proof.
+  intros Ht Hl. rewrite smoothness_solve_transfer. split; [apply smoothness_solve_correct; exact Ht|].
+  apply smoothness_solve_optimal; [exact Ht | rewrite map_length; exact Hl].
+Qed.
 
 Lemma transfer_closed_forms :
   (forall v, map Q2R (non_negative Qops v) = non_negative Rops (map Q2R v)) /\
